@@ -120,26 +120,45 @@ def replay_history(args):
   return None
 
 
+SHAPES = [
+    # (name, settings applied on top of a random instance)
+    ('tr_only_budget', dict(tr=(1, 2), cr=(0, 0), want_budget=True, budget_mode='wide', share=(0, 0, 0, 0), nmax=0)),
+    ('no_ranges_ratio', dict(tr=(0, 0), cr=(0, 0), gtol=(2, 1), want_budget=False, share=(0, 0, 0, 0), nmax=0)),
+    ('cr_only_share', dict(tr=(0, 0), cr=(1, 3), share=(2, 100, 90, 100), want_budget=False, nmax=0)),
+    ('both_ranges_nmax', dict(tr=(1, 3), cr=(1, 3), nmax=3, want_budget=True, budget_mode='low_half', share=(0, 0, 0, 0))),
+    ('plain', dict(tr=(0, 0), cr=(0, 0), gtol=(0, 0), vtol=(0, 0), want_budget=False, share=(0, 0, 0, 0), nmax=0)),
+    ('volume_budget', dict(tr=(0, 0), cr=(1, 2), vtol=(4, 1), want_budget=True, budget_mode='wide', share=(0, 0, 0, 0), nmax=0)),
+    ('tr_only_plain', dict(tr=(1, 3), cr=(0, 0), want_budget=False, share=(0, 0, 0, 0), nmax=0)),
+    ('budget_middle', dict(tr=(0, 0), cr=(0, 0), want_budget=True, budget_mode='middle', share=(0, 0, 0, 0), nmax=0)),
+]
+
+
 def pick_instances(seed, count):
-  """Small instances with varied parameter shapes (with / without size ranges, k >= 2, budget, share, n_geos_max)."""
+  """Small instances, one per parameter SHAPE (which of the size ranges are given, budget, share, n_geos_max, ...),
+  each with a non-empty exhaustive AND greedy result so that history effects are observable."""
   rng = random.Random(seed * 31 + 10)
   out = []
-  tries = 0
-  while len(out) < count and tries < 400:
-    tries += 1
-    inst = mm.gen_instance(rng, len(out) + 1, rng.choice(['random', 'constraints']), nmax_geos=4)
-    if inst['n'] < 3:
-      continue
-    inst['par']['n_designs'] = rng.choice([2, 3, 5])
-    if inst['extra_elig_row'] not in (False, 'optional'):
-      inst['extra_elig_row'] = 'optional'      # the instance must be constructible: C10 is about one live object
-    shape = len(out) % 4
-    if shape == 0:
-      inst['tr'] = inst['cr'] = (0, 0)
-    elif shape == 1:
-      inst['tr'] = (1, 2)
-    inst = mm.attach_oracle(inst)
-    out.append(inst)
+  for k in range(count):
+    name, settings = SHAPES[k % len(SHAPES)]
+    for _ in range(60):
+      inst = mm.gen_instance(rng, len(out) + 1, 'random', nmax_geos=4)
+      if inst['n'] < 3:
+        continue
+      inst.update(settings)
+      inst['budget'] = None
+      inst['default_elig'] = True
+      inst['elig'] = ['ctx'] * inst['n']
+      inst['extra_elig_row'] = False
+      inst['float_ints'] = False
+      inst['par']['n_designs'] = rng.choice([2, 3, 5])
+      inst['par']['iroas'] = rng.choice([0.5, 1.0, 2.0])
+      inst['shape'] = name
+      inst = mm.attach_oracle(inst)
+      fa = fresh_answers(inst)
+      if fa['exh'][0] == 'ok' and fa['exh'][1] and fa['greedy'][0] == 'ok' and fa['greedy'][1]:
+        inst['fresh'] = fa
+        out.append(inst)
+        break
   return out
 
 
@@ -171,7 +190,10 @@ def run(res):
   sims = rs.json_lines()
   sims = rng.sample(sims, min(len(sims), 6000 if thorough else 500))
   insts = pick_instances(res.seed, 8 if thorough else 4)
-  fresh = par_mod.pmap(fresh_answers, insts, nproc=len(insts), chunksize=1)
+  if len(insts) < 3:
+    raise tlc.MachineryError('could not build instances with non-empty results for the parameter shapes')
+  fresh = [i.pop('fresh') for i in insts]
+  res.extra['instance_shapes'] = [i['shape'] for i in insts]
   jobs = []
   n_enum_insts = 4 if thorough else 2
   for i, inst in enumerate(insts):
